@@ -112,10 +112,17 @@ def set_layer(ctx, sess):
     names = list(sess.shell.settings) + ['nosuch', 'todict', 'getstr', 'setstr', '_parse_bool', '__class__']
     steps = []
     impl_outs = []
-    for k in range(rng.range(6, 14)):
+    fixed = [['nullvalue', "it's"], ['nullvalue'], ['nullvalue', 'a"b'], ['nullvalue'], ['nullvalue', 'back\\slash'], ['nullvalue'], [],
+             ['nullvalue', ''], ['nullvalue'], ['format', 'csv'], ['format']]
+    nsteps = rng.range(6, 14)
+    for k in range(len(fixed) + nsteps):
         name = rng.choice(names)
         kind = rng.weighted([('set', 6), ('get', 2), ('list', 1), ('arity', 1)])
-        if kind == 'list':
+        if k < len(fixed):
+            kind = 'fixed'
+        if kind == 'fixed':
+            comps = fixed[k]
+        elif kind == 'list':
             comps = []
         elif kind == 'get':
             comps = [name]
